@@ -175,7 +175,7 @@ Proof.
     destruct (find_task_some _ _ _ Ht) as [_ Hid].
     pose proof (vcore_find c wkv) as Hw.
     assert (Hmid : tid_mem id a = true) by (apply Hm; left; reflexivity).
-    set (wkv1 := with_assign wkv (Sn (tid_remove id a) p (res_add f []))).
+    set (wkv1 := with_assign wkv (Sn (tid_remove id a) p (res_add_cap f [] (w_res wkv)))).
     assert (Hrm : remove_sn_task wkv id [] = Ok wkv1) by (unfold remove_sn_task; rewrite Ea, Hmid; reflexivity).
     destruct (wi_sets _ _ _ (proj1 (proj2 (proj2 HW))) (w_id wkv) wkv a p f Hw Ea) as [Sa _].
     match type of H with lost_assigned ?cc r _ _ = _ => set (c2 := cc) in * end.
@@ -205,7 +205,7 @@ Proof.
         destruct (N.eqb x (w_id wkv)); reflexivity. }
     destruct W3 as [W3 Ew2].
     assert (Sw2 : wsorted (c_workers c2)) by (rewrite Ew2; exact Sw).
-    destruct (IH c2 wkv1 (tid_remove id a) p (res_add f []) running1 (ret ++ rt) c' running' ret' Sw2 W3 eq_refl Hnd') as (Ew & wkv' & a' & f' & Hi' & Ea' & Hm' & W').
+    destruct (IH c2 wkv1 (tid_remove id a) p (res_add_cap f [] (w_res wkv)) running1 (ret ++ rt) c' running' ret' Sw2 W3 eq_refl Hnd') as (Ew & wkv' & a' & f' & Hi' & Ea' & Hm' & W').
     + intros i Hi. rewrite tid_mem_remove_other; [apply Hm; right; exact Hi|].
       apply tid_eqb_neq. intros E. subst i. contradiction.
     + exact H.
